@@ -5,6 +5,7 @@ import (
 	"go/constant"
 	"go/token"
 	"go/types"
+	"math/big"
 	"sort"
 	"strings"
 
@@ -103,10 +104,21 @@ type wEng struct {
 	phiN   map[*ssa.Phi]string
 	post   map[string]postSummary
 	wmemo  map[ssa.Value]*win
+	// integer conversions that are not value-preserving by type alone
+	intTyped map[string]bool  // leaves whose static type is the platform int (≤ MaxInt by type)
+	upper    map[string]int64 // declared upper bounds of leaves (preconditions, see rules)
+	convs    map[*ssa.Convert]*convInfo
+}
+
+// convInfo records how one integer conversion was justified.
+type convInfo struct {
+	ok  bool
+	why string
 }
 
 func newWEng(r *Run, fn *ssa.Function, post map[string]postSummary) *wEng {
-	return &wEng{r: r, fn: fn, nonneg: map[string]bool{}, phiN: map[*ssa.Phi]string{}, post: post, wmemo: map[ssa.Value]*win{}}
+	return &wEng{r: r, fn: fn, nonneg: map[string]bool{}, phiN: map[*ssa.Phi]string{}, post: post, wmemo: map[ssa.Value]*win{},
+		intTyped: map[string]bool{}, upper: map[string]int64{}, convs: map[*ssa.Convert]*convInfo{}}
 }
 
 func isByteSlice(t types.Type) bool {
@@ -173,6 +185,9 @@ func (e *wEng) leaf(v ssa.Value) lin {
 	if nn {
 		e.nonneg[n] = true
 	}
+	if b, ok := v.Type().Underlying().(*types.Basic); ok && b.Kind() == types.Int {
+		e.intTyped[n] = true
+	}
 	return lin{t: map[string]int64{n: 1}}
 }
 
@@ -188,10 +203,24 @@ func (e *wEng) lin(v ssa.Value) lin {
 		}
 	case *ssa.Convert:
 		if isIntType(x.Type()) && isIntType(x.X.Type()) {
-			return e.lin(x.X)
+			if e.convPreserves(x) {
+				return e.lin(x.X)
+			}
+			// the conversion may wrap: its result is an unrelated integer
+			n := "wrap:" + e.r.D.D(x)
+			if isUnsigned(x.Type()) {
+				e.nonneg[n] = true
+			}
+			return lin{t: map[string]int64{n: 1}}
 		}
 	case *ssa.ChangeType:
 		return e.lin(x.X)
+	case *ssa.Phi:
+		if isRangePre(x) {
+			n := fmt.Sprintf("it@%d", x.Block().Index)
+			e.nonneg[n] = true
+			return lin{c: -1, t: map[string]int64{n: 1}}
+		}
 	case *ssa.BinOp:
 		switch x.Op {
 		case token.ADD:
@@ -222,6 +251,121 @@ func (e *wEng) lin(v ssa.Value) lin {
 	return e.leaf(v)
 }
 
+// intRange is the value range of an integer type under the loaded build
+// configuration (int/uint/uintptr take the configuration's word size).
+func (e *wEng) intRange(t types.Type) (lo, hi *big.Int) {
+	b := t.Underlying().(*types.Basic)
+	bits := e.r.P.Sizes().Sizeof(b) * 8
+	one := big.NewInt(1)
+	if b.Info()&types.IsUnsigned != 0 {
+		return big.NewInt(0), new(big.Int).Sub(new(big.Int).Lsh(one, uint(bits)), one)
+	}
+	h := new(big.Int).Lsh(one, uint(bits-1))
+	return new(big.Int).Neg(h), new(big.Int).Sub(h, one)
+}
+
+// convPreserves decides whether an integer conversion keeps the value: either
+// the target type holds every value of the source type, or the guards that
+// dominate the conversion (plus declared bounds) confine the operand to the
+// target's range.  The upper bound "≤ MaxInt" is discharged by exhibiting a
+// bound that is itself a platform int (a length, an int variable) or a
+// constant/declared bound within range.
+func (e *wEng) convPreserves(x *ssa.Convert) bool {
+	if ci := e.convs[x]; ci != nil {
+		return ci.ok
+	}
+	ci := &convInfo{}
+	e.convs[x] = ci
+	slo, shi := e.intRange(x.X.Type())
+	tlo, thi := e.intRange(x.Type())
+	needLo, needHi := slo.Cmp(tlo) < 0, shi.Cmp(thi) > 0
+	if !needLo && !needHi {
+		ci.ok, ci.why = true, "target type holds every source value"
+		return true
+	}
+	ci.ok = true // provisional, so that recursive uses of this conversion do not loop
+	v := e.lin(x.X)
+	facts := e.factsAt(x.Block())
+	okLo, okHi := !needLo, !needHi
+	if needLo { // only signed → unsigned (tlo = 0) or narrower signed
+		if tlo.Sign() == 0 {
+			okLo = e.entails(v, facts)
+		} else if tlo.IsInt64() {
+			okLo = e.entails(v.addc(-tlo.Int64()), facts)
+		}
+	}
+	if needHi {
+		okHi = e.boundedAbove(v, thi, facts)
+	}
+	ci.ok = okLo && okHi
+	switch {
+	case ci.ok:
+		ci.why = "operand confined to the target range by dominating guards / declared bounds"
+	case !okLo:
+		ci.why = "operand " + v.String() + " not shown ≥ " + tlo.String()
+	default:
+		ci.why = "operand " + v.String() + " not shown ≤ " + thi.String()
+	}
+	return ci.ok
+}
+
+// boundedAbove: v ≤ max follows.  Accepted certificates: v is a constant ≤ max;
+// v is a single leaf with a declared bound ≤ max; or some fact says u − v ≥ 0
+// (possibly after adding up to two more facts) where u is "small by type": at
+// most one positive unit term that is a platform-int leaf (≤ MaxInt ≤ max when
+// the target is at least int-sized) or has a declared bound ≤ max, all other
+// terms non-positive multiples of non-negative leaves, constant ≤ 0.
+func (e *wEng) boundedAbove(v lin, max *big.Int, facts []lin) bool {
+	_, intHi := e.intRange(types.Typ[types.Int])
+	small := func(u lin) bool {
+		pos := 0
+		lim := new(big.Int)
+		for k, c := range u.t {
+			if c < 0 {
+				if !e.nonneg[k] {
+					return false
+				}
+				continue
+			}
+			pos++
+			if pos > 1 || c != 1 {
+				return false
+			}
+			if b, ok := e.upper[k]; ok {
+				lim.SetInt64(b)
+			} else if e.intTyped[k] {
+				lim.Set(intHi)
+			} else {
+				return false
+			}
+		}
+		lim.Add(lim, big.NewInt(u.c))
+		return lim.Cmp(max) <= 0
+	}
+	if small(v) {
+		return true
+	}
+	n := len(facts)
+	for i := 0; i < n; i++ { // fact: u − v ≥ 0 with u small  ⇔  (fact + v) small
+		u1 := facts[i].plus(v, 1)
+		if small(u1) {
+			return true
+		}
+		for j := 0; j < n; j++ {
+			if j == i {
+				continue
+			}
+			if small(u1.plus(facts[j], 1)) {
+				return true
+			}
+		}
+	}
+	return false
+}
+
+// declareUpper records a precondition "leaf ≤ bound".
+func (e *wEng) declareUpper(name string, bound int64) { e.upper[name] = bound }
+
 // window describes a []byte value; nil when it is not derived from a
 // recognised base by slicing.
 func (e *wEng) window(v ssa.Value) *win {
@@ -234,6 +378,7 @@ func (e *wEng) window(v ssa.Value) *win {
 		if isByteSlice(x.Type()) {
 			n := "len(" + e.r.D.D(x) + ")"
 			e.nonneg[n] = true
+			e.intTyped[n] = true
 			w = &win{base: x, lo: linConst(0), hi: lin{t: map[string]int64{n: 1}}}
 		}
 	case *ssa.MakeSlice:
